@@ -1,7 +1,7 @@
 """C10 -- execute hands the payload's outcome to the caller and leaves the runtime alone."""
 import ast
 
-from .. import util
+from .. import libfacts, util
 from ..interp import Interp, Path, exc_value, is_exc, show, strip_sites, subterms, NONE
 from .. import slots
 from ..report import Undecided
@@ -32,16 +32,82 @@ def chain_functions(chk):
     return fns, runners
 
 
+PUBLIC = ("run_payload", "register_payload", "execute", "adopt", "accept", "shutdown", "run", "stop", "aclose", "manage_payloads", "ready")
+
+
+def own_helpers(fi):
+    """inline the private synchronous helpers of the class (and its bases) an entry point delegates to"""
+
+    def flt(f, ct):
+        return f.cls is not None and fi.cls is not None and not f.is_async and f is not fi and f.name not in PUBLIC and ct[1][0] == "attr" and ct[1][1] == SELF
+
+    return flt
+
+
+def helper_closure(prog, fi):
+    """fi plus the own-class helpers it reaches (for syntactic scans)"""
+    seen, todo = {}, [fi]
+    while todo:
+        f = todo.pop()
+        if f.qual in seen:
+            continue
+        seen[f.qual] = f
+        for n in ast.walk(f.node):
+            if isinstance(n, ast.Call) and isinstance(n.func, ast.Attribute) and isinstance(n.func.value, ast.Name) and n.func.value.id == "self" and n.func.attr not in PUBLIC and fi.cls is not None:
+                g = prog.lookup_method(fi.cls, n.func.attr)
+                if g is not None and not g.is_async:
+                    todo.append(g)
+    return list(seen.values())
+
+
 def leaf_kind(prog, fi):
     """how the runner's run_payload runs the payload"""
-    for n in ast.walk(fi.node):
-        if isinstance(n, (ast.Attribute, ast.Name)):
-            r = prog.resolve(fi.module, n)
-            if r == "ext:asyncio.run_coroutine_threadsafe":
-                return "asyncio"
-            if r == "ext:trio.from_thread.run":
-                return "trio"
+    for f in helper_closure(prog, fi):
+        for n in ast.walk(f.node):
+            if isinstance(n, (ast.Attribute, ast.Name)):
+                r = prog.resolve(f.module, n)
+                if r == "ext:asyncio.run_coroutine_threadsafe":
+                    return "asyncio"
+                if r == "ext:trio.from_thread.run":
+                    return "trio"
     return "direct"
+
+
+def handler_representatives(prog, fi):
+    """one injected exception per class named by an except clause on the way: a handler that is meant for the
+    machinery (a poll timeout, a closed loop) must not swallow or rewrite the SAME class raised by the payload"""
+    out = {}
+    for f in helper_closure(prog, fi):
+        for h in ast.walk(f.node):
+            if isinstance(h, ast.ExceptHandler) and h.type is not None:
+                for ty in h.type.elts if isinstance(h.type, ast.Tuple) else [h.type]:
+                    q = prog.resolve(f.module, ty)
+                    if q and libfacts.is_exception_class(q, prog) and q not in ("ext:builtins.BaseException", "ext:builtins.Exception"):
+                        out["%s (named by a handler in %s)" % (q.split(":")[-1].replace("builtins.", ""), f.name)] = exc_value(libfacts.canon_exc(q), "payload")
+    return out
+
+
+def accepted_own_raise(fi, n):
+    """`if k not in self.M: raise KeyError(k)` in front of `self.M[k]`: the look-before-you-leap spelling of the
+    KeyError the subscription raises anyway -- not an exception of the chain's own"""
+    par = util.parents_map(fi.node)
+    up = par.get(id(n))
+    if not isinstance(up, ast.If) or n not in up.body or up.orelse:
+        return False
+    t = up.test
+    if isinstance(t, ast.UnaryOp) and isinstance(t.op, ast.Not) and isinstance(t.operand, ast.Compare) and len(t.operand.ops) == 1 and isinstance(t.operand.ops[0], ast.In):
+        key, mp = t.operand.left, t.operand.comparators[0]
+    elif isinstance(t, ast.Compare) and len(t.ops) == 1 and isinstance(t.ops[0], ast.NotIn):
+        key, mp = t.left, t.comparators[0]
+    else:
+        return False
+    e = n.exc
+    if not (isinstance(e, ast.Call) and util.dotted(e.func) == "KeyError" and len(e.args) == 1 and not e.keywords and ast.dump(e.args[0]) == ast.dump(key)):
+        return False
+    if n.cause is not None and not (isinstance(n.cause, ast.Constant) and n.cause.value is None):
+        return False
+    want = (ast.dump(mp), ast.dump(key))
+    return any(isinstance(s, ast.Subscript) and (ast.dump(s.value), ast.dump(s.slice)) == want for s in ast.walk(fi.node))
 
 
 def is_leaf_call(ct, kind):
@@ -75,7 +141,7 @@ def identity_and_transparency(chk):
             return f[0] == "attr" and f[2] == "run_payload"
 
         # ---- O10.1 return-value identity
-        it = Interp(prog, fi)
+        it = Interp(prog, fi, inline=own_helpers(fi))
         outs = it.run()
         chk.count(len(outs))
         ok = True
@@ -110,8 +176,8 @@ def identity_and_transparency(chk):
             chk.ok("O10.1", name, "%s returns the un-transformed result of %s" % (label, "the payload" if kind else "the next run_payload"), node=fi.node)
         # ---- O10.2 exception transparency
         ok = True
-        own = [n for n in ast.walk(fi.node) if isinstance(n, ast.Raise)]
-        for n in own:
+        own = [(f, n) for f in helper_closure(prog, fi) for n in ast.walk(f.node) if isinstance(n, ast.Raise) and not accepted_own_raise(f, n)]
+        for _f, n in own:
             chk.bad(
                 "O10.2",
                 name,
@@ -120,14 +186,16 @@ def identity_and_transparency(chk):
                 stmt="own-raise %s" % (util.unparse(n.exc)[:60] if n.exc is not None else ""),
             )
             ok = False
-        for what, e in INJECT.items():
+        inject = dict(INJECT)
+        inject.update(handler_representatives(prog, fi))
+        for what, e in inject.items():
 
             def hook(it, path, ct, node, e=e):
                 if next_call(ct):
                     return [("raise", e)]
                 return None
 
-            outs = Interp(prog, fi, call_hook=hook).run()
+            outs = Interp(prog, fi, call_hook=hook, inline=own_helpers(fi)).run()
             chk.count(len(outs))
             for o in outs:
                 if not any(ev[0] == "raised-at-call" for ev in o.path.events):
@@ -144,7 +212,7 @@ def identity_and_transparency(chk):
                     )
                     ok = False
         if ok:
-            chk.ok("O10.2", name, "an exception thrown by the payload leaves %s unchanged" % label, node=fi.node, input=sorted(INJECT))
+            chk.ok("O10.2", name, "an exception thrown by the payload leaves %s unchanged" % label, node=fi.node, input=sorted(inject))
     return fns, runners
 
 
@@ -154,7 +222,7 @@ def leaves(chk, fns):
     for label, fi in fns[2:]:
         name = fi.qual
         kind = leaf_kind(prog, fi)
-        outs = Interp(prog, fi).run()
+        outs = Interp(prog, fi, inline=own_helpers(fi)).run()
         chk.count(len(outs))
         ok = True
         for o in outs:
